@@ -8,8 +8,8 @@ from props import rt
 PID = "C07"
 LEVEL = "proof"
 MODULE = "Sigc.Props.C07"
-EXTRA_MODULES = ("Sigc.Props.Refine", "Sigc.Props.Fuel", "Sigc.Props.SpecK", "Sigc.Props.SlotG",)   # refinement P ⊑ S', S' ≡ S on runs clear of the known findings
-REQUIRED = ["Sigc.SlotG.wf_reachable", "Sigc.SlotG.no_dangling", "Sigc.SlotG.invalidated_holds_no_functor", "Sigc.SlotG.live_count_spec", "Sigc.Fuel.terminates", "Sigc.Fuel.runProgram_fuel_independent", "Sigc.Refine.refines", "Sigc.Refine.runProgram_refines", "Sigc.SpecK.model_refines_pure_spec"]
+EXTRA_MODULES = ("Sigc.Props.Refine", "Sigc.Props.Fuel", "Sigc.Props.SpecK", "Sigc.Props.SlotG", "Sigc.Props.SweepL",)   # refinement P ⊑ S', S' ≡ S on runs clear of the known findings
+REQUIRED = ["Sigc.SweepL.quiescent_clean", "Sigc.SweepL.live_count_spec", "Sigc.SweepL.disc_released", "Sigc.SweepL.owner_gone_releases", "Sigc.SweepL.final_live_zero", "Sigc.SweepL.no_fuel_error", "Sigc.SlotG.wf_reachable", "Sigc.SlotG.no_dangling", "Sigc.SlotG.invalidated_holds_no_functor", "Sigc.SlotG.live_count_spec", "Sigc.Fuel.terminates", "Sigc.Fuel.runProgram_fuel_independent", "Sigc.Refine.refines", "Sigc.Refine.runProgram_refines", "Sigc.SpecK.model_refines_pure_spec"]
 TRUSTED = rt.TRUSTED_RT
 ASSUMPTIONS = rt.ASSUMPTIONS_RT + []
 PARTIAL = []
@@ -87,7 +87,8 @@ def post_monitor(ctx, by_name):
 
 def correspondence(ctx):
     # + slots held by value inside other slots' functors (nest:), invalidated at every level: functors must be released
-    return rt.add_slotg_stage(ctx, rt.run(ctx, sys.modules[__name__]), 'C07')
+    # + one slot list with exact destruction timing: owner functors x connected empty slots (docs/SWEEPL.md)
+    return rt.add_sweepl_stage(ctx, rt.add_slotg_stage(ctx, rt.run(ctx, sys.modules[__name__]), 'C07'), 'C07')
 
 
 def search(ctx, disagreements):
